@@ -2584,6 +2584,12 @@ static iwrc _jbl_target_apply_patch(struct jbl_node *target, const struct jbl_pa
       if (!value) {
         return JBL_ERROR_PATH_NOTFOUND;
       }
+      if (op == JBP_COPY) { // Insert a copy: linking the source node itself would unlink it from its own place
+        struct jbl_node *cloned;
+        iwrc rc = jbn_clone(value, &cloned, pool);
+        RCRET(rc);
+        value = cloned;
+      }
       if (op == JBP_SWAP) {
         ntmp = iwpool_calloc(sizeof(*ntmp), pool);
         if (!ntmp) {
